@@ -360,10 +360,17 @@ def activate_domain_and_interventions(
     if isinstance(expression, Probability):
         if not isinstance(expression, PopulationProbability):
             raise TypeError
-        return PopulationProbability(
-            population=domain,
-            distribution=Distribution.safe(set(expression.children) - interventions),
-        ).intervene(interventions)
+        children = set(expression.children) - interventions
+        if not children:
+            return One()  # every child is held fixed by the experiment
+        distribution = Distribution.safe(children)
+        # the conditioning set moves into the experimental world together with the children
+        parents = set(expression.parents) - interventions
+        if parents:
+            distribution = distribution.given(parents)
+        return PopulationProbability(population=domain, distribution=distribution).intervene(
+            interventions
+        )
     if isinstance(expression, Sum):
         # TODO need full integration test to trso() function that covers this branch
         # Don't intervene the ranges because counterfactual variables shouldn't be in ranges
